@@ -734,3 +734,19 @@ M('c20-bool-prefix', 'C20', 'src/extensions/qaconf.c',
 M('c17-bool-prefix', 'C17', 'src/extensions/qaconf.c',
   "    if (!strcasecmp(s, \"true\"))", "    if (!strncasecmp(s, \"true\", strlen(s)))",
   'CU5', '_is_str_bool', 'prefix match accepts the empty word, which is then overwritten in place')
+
+# ---- wave 8 rules ------------------------------------------------------------------------------
+M('c15-errno-overwrite', 'C15', 'src/containers/qlisttbl.c',
+  "                    nomem = true;\n                    break;\n                }\n                memcpy(obj->data, cont->data, cont->size);",
+  "                    nomem = true;\n                    errno = ENOMEM;\n                    break;\n                }\n                memcpy(obj->data, cont->data, cont->size);",
+  'A7', 'qlisttbl_getnext', 'ENOMEM stored on the failure branch and overwritten by the trailing errno assignment')
+M('c15-ctor-free', 'C15', 'src/containers/qvector.c',
+  "        void *data = malloc(max * objsize);\n        if (data == NULL) {\n            free(vector);",
+  "        void *data = malloc(max * objsize);\n        if (data == NULL) {\n            qvector_free(vector);",
+  'A8', 'qvector', 'destructor dispatching through the unassigned method table on a failure exit')
+M('c20-typecheck-bound', 'C20', 'src/extensions/qaconf.c',
+  "j < cbdata->argc && j <= MAX_TYPECHECK; j++", "j < cbdata->argc; j++",
+  'B6', '_parse_inline', 'per-argument flag shifted beyond its group')
+M('c20-lineno-reset', 'C20', 'src/extensions/qaconf.c',
+  "    qaconf->lineno = 0;\n", "",
+  'B7', 'parse', 'line counter not reset between parses')
